@@ -6,13 +6,13 @@ from vf.irparse import IntT
 
 ID = 'C17'
 LEVEL = 'other'
-TUS = ['src/engine/engine_island.c', 'src/engine/engine_util_misc.c']
+TUS = ['src/engine/engine_island.c', 'src/engine/engine_util_misc.c', 'src/engine/engine_core_util.c']
 EXPLANATION = ('Bounded symbolic execution (llsym, z3 bit-vectors) of the real LLVM IR of mj_dsuRoot/mj_dsuMerge/mj_dsuAssign/mj_floodFill. '
                'mj_dsuMerge is checked as ONE INDUCTIVE STEP from an arbitrary parent[] satisfying the representation invariant, so merge '
                'histories of any length over forests of the stated size are covered; mj_dsuAssign from any invariant state; mj_floodFill on '
                'every CSR graph within the bound. Counterexamples are replayed on the natively compiled engine_island.c.')
 BOUNDS = {'quick': {'ntree': '<=4 (dsu), flood fill nr<=3 nnz<=4'}, 'thorough': {'ntree': '<=6 (dsu), flood fill nr<=4 nnz<=6'}}
-OUTSIDE = 'mj_island map construction / constraint incidence (treeNext, unionConstraintTrees) is covered only by unit "island" where listed; flex stiffness coupling; forests larger than the bound.'
+OUTSIDE = 'mj_island map construction and unionConstraintTrees (the generic Jacobian scan of treeNext IS covered: dense and sparse rows over 4 trees of 1/2/1/2 dofs); the special-cased constraint types of treeIterInit; flex stiffness coupling; forests larger than the bound.'
 ASSUMPTIONS = ['parent[] invariant: parent[t] = -1 or 0 <= parent[t] <= t with parent[parent[t]] != -1 (established by mj_island initialisation to -1 and preserved by mj_dsuMerge - the preservation is itself an obligation)',
                'mju_message(level ERROR) does not return (documented contract of error handlers)',
                'undef/poison values read as 0; x86-64 data layout']
@@ -27,7 +27,7 @@ def mod():
 
 
 def so():
-    if 'so' not in _cache: _cache['so'] = build.native_lib(['src/engine/engine_island.c'], ['src/engine/engine_util_misc.c', 'src/engine/engine_util_errmem.c'], name='island')
+    if 'so' not in _cache: _cache['so'] = build.native_lib(['src/engine/engine_island.c'], ['src/engine/engine_util_misc.c', 'src/engine/engine_util_errmem.c', 'src/engine/engine_core_util.c', 'src/engine/engine_util_blas.c', 'src/engine/engine_util_spatial.c'], name='island')
     return _cache['so']
 
 
@@ -222,6 +222,75 @@ def unit_flood(tier, nr, nnz):
     return ck
 
 
+def unit_treenext(tier, sparse):
+    """generic Jacobian scan of treeNext: called repeatedly, it returns exactly the trees that own a non-zero entry of constraint row i, each once, in dof order, then -2"""
+    ck = Checker('treeNext_%s' % ('sparse' if sparse else 'dense'), tier, timeout_s=120, semantics='real')
+    from vf.irparse import NamedT, FpT
+    L = build.Layout(); KJ = build.enum_values('mjJAC_')
+    w = W.World('real')
+    dofnum = [1, 2, 1, 2]; ntree = 4; nv = sum(dofnum); dofadr = [sum(dofnum[:t]) for t in range(ntree)]
+    treeid = [t for t in range(ntree) for _ in range(dofnum[t])]
+    M = W.SB(w, L, 'mjModel_', 'm', zero=True); D = W.SB(w, L, 'mjData_', 'd', zero=True)
+    M.set('nv', nv); M.set('ntree', ntree); M.set('opt.jacobian', KJ['mjJAC_SPARSE'] if sparse else KJ['mjJAC_DENSE'])
+    M.arr('dof_treeid', 'i32', nv, treeid); M.arr('tree_dofadr', 'i32', ntree, dofadr); M.arr('tree_dofnum', 'i32', ntree, dofnum)
+    row = 1      # the constraint row under test is row 1 of a 2-row Jacobian
+    pre = []
+    if sparse:
+        nnz = z3.BitVec('nnz', 32); w.syms.append(('nnz', 'i32', nnz))
+        D.arr('efc_J_rownnz', 'i32', 2, [I(0), nnz]); D.arr('efc_J_rowadr', 'i32', 2, [0, 1])
+        co, col = D.arr('efc_J_colind', 'i32', 1 + nv, name='colind')
+        pre += [nnz >= 0, nnz <= nv] + [z3.And(col[1 + k] >= 0, col[1 + k] < nv) for k in range(nv)] + [col[1 + k] < col[2 + k] for k in range(nv - 1)]
+        present = [z3.Or(*[z3.And(nnz > k, col[1 + k] == dof) for k in range(nv)]) for dof in range(nv)]
+    else:
+        jo, J = D.arr('efc_J', 'f64', 2 * nv, name='J')
+        present = [J[nv * row + dof] != 0 for dof in range(nv)]
+    ex = llsym.Exec(mod(), fpmode='real', loop_bound=4 * nv + 8)
+    it_t = ex.resolve(NamedT('%struct.mjTreeIter')); offs, isz, _ = ex.struct_layout(it_t)
+    io = w.obj('iter', isz)
+    io.put(offs[0], 'i32', -2); io.put(offs[0] + 4, 'i32', -2); io.put(offs[1], 'i32', 0); io.put(offs[2], 'i32', -1)
+    st = w.to_state(ex); st.pc += pre
+    has = [z3.Or(*[present[d] for d in range(dofadr[t], dofadr[t] + dofnum[t])]) for t in range(ntree)]
+    # expected k-th answer: the k-th tree (ascending) that owns an entry, else -2
+    def kth(k):
+        out = I(-2)
+        for t in reversed(range(ntree)):
+            before = sum([z3.If(has[u], 1, 0) for u in range(t)], z3.IntVal(0))
+            out = z3.If(z3.And(has[t], before == k), I(t), out)
+        return out
+    states = [(st, [])]
+    for k in range(ntree + 1):
+        nxt = []
+        for cur, seq in states:
+            res = ex.run('@treeNext', [w.P(M.o), w.P(D.o), I(row), w.P(io)], cur.clone()); ck.note_results(ex, res)
+            for r in res:
+                if r.kind != 'return': continue
+                r.state.stack = []; nxt.append((r.state, seq + [r.value]))
+        states = nxt
+    dec = (lambda mdl: {'nnz': W.evalnum(mdl, nnz), 'colind': [W.evalnum(mdl, c) for c in col[1:]]}) if sparse else (lambda mdl: {'J row': [str(W.evalnum(mdl, x)) for x in J[nv * row:nv * row + nv]]})
+    def native(model, witness):
+        import ctypes
+        vals = w.concretise(model)
+        def child():
+            lib = W.load_lib(so()); nw = W.NativeWorld(w, vals); out = []
+            lib.treeNext.restype = ctypes.c_int
+            for _ in range(ntree + 1): out.append(lib.treeNext(ctypes.c_void_p(nw.addr(M.o)), ctypes.c_void_p(nw.addr(D.o)), ctypes.c_int(row), ctypes.c_void_p(nw.addr(io))))
+            return out
+        r = W.run_child(child, timeout=30)
+        if r[0] != 'ok': return False, {'native': str(r)[:200]}
+        if sparse:
+            n_ = int(W.evalnum(model, nnz)); cols = [int(W.evalnum(model, c)) for c in col[1:1 + n_]]; owners = sorted(set(treeid[c] for c in cols))
+        else:
+            owners = sorted(set(treeid[dd] for dd in range(nv) if float(W.evalnum(model, J[nv * row + dd])) != 0.0))
+        want = owners + [-2] * (ntree + 1 - len(owners))
+        return (list(r[1]) != want), {'native sequence': list(r[1]), 'trees owning an entry': want}
+    for cur, seq in states:
+        ck.prove('treeNext called %d times returns the trees owning a non-zero entry of the row, ascending, each once, then -2' % (ntree + 1), cur.pc, z3.And(*[seq[k] == kth(k) for k in range(ntree + 1)]),
+                 site='treeNext:scan-%s' % ('sparse' if sparse else 'dense'), decode=dec, replay=native)
+    ck.selfcheck('paths', len(states) > 1, len(states))
+    ck.reach('two adjacent trees coupled through their first dofs', pre + [has[0], has[1]])
+    return ck
+
+
 def units(tier):
     u = []
     ns = [2, 3, 4] if tier == 'quick' else [2, 3, 4, 5, 6]
@@ -231,4 +300,5 @@ def units(tier):
     fl = [(2, 2), (3, 2), (3, 4)] if tier == 'quick' else [(2, 2), (3, 2), (3, 4), (4, 4), (4, 6)]
     for nr, nnz in fl:
         u.append(('flood_nr%d_nnz%d' % (nr, nnz), 'unit_flood', {'nr': nr, 'nnz': nnz}))
+    u += [('treeNext_dense', 'unit_treenext', {'sparse': False}), ('treeNext_sparse', 'unit_treenext', {'sparse': True})]
     return u
